@@ -119,8 +119,20 @@ func (c *scaleC) dump(ret string) string {
 		_ = o
 		stops++
 	}
-	return fmt.Sprintf("ret=%s proj=%s states=%s logs=%s run=%s info=%s alive=%d launches=%d stops=%d", ret,
-		sortedJoin(proj), sortedJoin(r.VerifStateNames()), sortedJoin(r.VerifLogNames()), sortedJoin(r.VerifRunningNamesNoLock()),
+	// what a client sees: the names inside the reported states, and the state found under each key
+	snames := []string{}
+	if sts, err := r.GetProcessesState(); err == nil {
+		for _, st := range sts.States {
+			snames = append(snames, st.Name)
+		}
+	}
+	for _, k := range r.VerifStateNames() {
+		if st, err := r.GetProcessState(k); err != nil || st.Name != k {
+			snames = append(snames, "MISMATCH:"+k)
+		}
+	}
+	return fmt.Sprintf("ret=%s proj=%s states=%s snames=%s logs=%s run=%s info=%s alive=%d launches=%d stops=%d", ret,
+		sortedJoin(proj), sortedJoin(r.VerifStateNames()), sortedJoin(snames), sortedJoin(r.VerifLogNames()), sortedJoin(r.VerifRunningNamesNoLock()),
 		sortedJoin(info), alive, launches, stops)
 }
 
@@ -157,6 +169,26 @@ func (c *scaleC) Exec(op string) string {
 		c.h.r = r
 		if err := verif.S.Go("api", "main", func() { _ = r.Run() }); err != nil {
 			return "DIVERGED"
+		}
+		if q := c.quiesce(); q != "" {
+			return q
+		}
+		verif.S.TakeLog()
+		return c.dump("ok")
+	case len(w) == 2 && w[0] == "sexit":
+		// the command of the replica currently called <name> exits by itself with code 0
+		if c.h == nil || c.h.dead {
+			return "DEAD"
+		}
+		target, ok := UnHex(w[1])
+		if !ok {
+			return "bad-op"
+		}
+		for _, fc := range c.h.cmds {
+			if fc.alive && fc.conf != nil && fc.conf.ReplicaName == target {
+				fc.exit(0)
+				break
+			}
 		}
 		if q := c.quiesce(); q != "" {
 			return q
@@ -254,6 +286,11 @@ func (c *scaleC) Gen(r *rand.Rand, tier string, emit func(string)) {
 				target = "nosuch"
 			default:
 				target = "w-99"
+			}
+			if r.Intn(3) == 0 {
+				// a replica finishes by itself before the scale request
+				pe := types.ProcessConfig{Name: "w", Replicas: cur, ReplicaNum: r.Intn(cur)}
+				emit(fmt.Sprintf("sexit %s", Hex(pe.CalculateReplicaName())))
 			}
 			emit(fmt.Sprintf("scale %s %d", Hex(target), n))
 			valid := n >= 1 && (target == pc.CalculateReplicaName() || (target == "w" && cur == 1))
